@@ -535,6 +535,12 @@ def judge_damaged(f, recs, st):
                     # the file is not decodable as a whole: the text layer decodes in chunks,
                     # so the error may surface before earlier, intact groups were delivered
                     return viols
+                if raised and any(k in ("ill", "undecodable", "unspecified") for k in kinds[i + 1:]):
+                    # the file contains an ill-formed group further on: it is not a
+                    # well-formed file, and nothing obliges a reader to deliver the groups
+                    # in front of the bad one before it rejects (it may parse ahead)
+                    st.probe("rejected_before_delivering_earlier_groups")
+                    return viols
                 viols.append(cm.viol("C01/damaged/%s/well-formed-group-lost" % fmt,
                                      group=i, yielded=len(trees), raised=raised,
                                      damage=f["damage"]))
